@@ -96,7 +96,7 @@ pub fn gen_cfg(r: &mut Rng, rg: &Regime) -> GenCfg {
     let pool: Vec<String> = POOL[..rg.pool.min(POOL.len())].iter().map(|s| s.to_string()).collect();
     let mut markers = vec![];
     for d in convs.iter().filter(|c| c.as_str() != "base").chain(quotes.iter()).chain(std::iter::once(&"base".to_string())) {
-        markers.push((d.clone(), *r.pick(&[MarkerKind::NoMarker, MarkerKind::Coin, MarkerKind::Restricted, MarkerKind::NoMarker, MarkerKind::Coin, MarkerKind::Restricted, MarkerKind::NoMarker, MarkerKind::Coin, MarkerKind::Restricted, MarkerKind::EmptyResponse, MarkerKind::RestrictedFinalized, MarkerKind::Unspecified])));
+        markers.push((d.clone(), *r.pick(&[MarkerKind::NoMarker, MarkerKind::Coin, MarkerKind::Restricted, MarkerKind::NoMarker, MarkerKind::Coin, MarkerKind::Restricted, MarkerKind::NoMarker, MarkerKind::Coin, MarkerKind::Restricted, MarkerKind::EmptyResponse, MarkerKind::RestrictedFinalized, MarkerKind::Unspecified, MarkerKind::RestrictedGated, MarkerKind::RestrictedGated, MarkerKind::CoinOdd])));
     }
     let mut approvers: Vec<String> = (0..1 + { let n = if r.chance(20) { 4 } else { 2 }; r.below(n) }).map(|_| r.pick(&pool).clone()).collect();
     approvers.dedup();
@@ -444,7 +444,7 @@ pub fn gen_chain_change(r: &mut Rng, w: &World, pool: &[String]) -> Op {
     if r.chance(50) {
         let denoms: Vec<String> = w.chain.markers.keys().cloned().collect();
         if !denoms.is_empty() {
-            return Op::SetMarker { denom: r.pick(&denoms).clone(), kind: *r.pick(&[MarkerKind::NoMarker, MarkerKind::Coin, MarkerKind::Restricted, MarkerKind::RestrictedFinalized, MarkerKind::EmptyResponse, MarkerKind::Unspecified]) };
+            return Op::SetMarker { denom: r.pick(&denoms).clone(), kind: *r.pick(&[MarkerKind::NoMarker, MarkerKind::Coin, MarkerKind::Restricted, MarkerKind::RestrictedFinalized, MarkerKind::EmptyResponse, MarkerKind::Unspecified, MarkerKind::RestrictedGated, MarkerKind::CoinOdd]) };
         }
     }
     if r.chance(15) {
